@@ -683,6 +683,22 @@ def _no_hang(ctx):
         if oc in (RAISE, BREAK, RETURN):
             continue
         if not any(e.kind == "call" and dispatch in (e.data.get("targets") or []) for e in evs):
+            # dispatching as a side effect of a comprehension's element / filter
+            # expression: its iterations are not enumerated as paths, and a
+            # progress test that counts the outcomes is beyond this engine
+            for comp in [x for st_ in w.body for x in ast.walk(st_) if isinstance(x, (ast.ListComp, ast.GeneratorExp, ast.SetComp, ast.DictComp))]:
+                for c_ in [x for x in ast.walk(comp) if isinstance(x, ast.Call)]:
+                    try:
+                        ts_ = ctx.res.callees(fjs, c_, fjs.cls)[0]
+                    except Exception:
+                        ts_ = []
+                    for t_ in ts_:
+                        if t_ is dispatch or any(f_ is dispatch for f_, _rc, _via in ctx.effects.closure(t_, t_.cls, max_depth=2)):
+                            raise AnalysisError(
+                                f"{fjs.loc(comp)}: from_job_sequences dispatches inside a comprehension (`{ast.unparse(c_)[:50]}`) and "
+                                "tests progress by counting its results; the iterations of a comprehension are not enumerated as paths, "
+                                "so termination of the replay loop is not decided"
+                            )
             bad = True
             chk.violation(
                 "R14.c", fjs, w,
@@ -749,10 +765,33 @@ def _feasible(evs) -> bool:
     # snapshots of a counter: `before = n` ... `n += 1` ... `if n == before`
     # snap[(frame, before)] = [n, grown since the snapshot?]
     snap: dict[tuple, list] = {}
+    # samples of the schedule's operation count: `before = D.schedule.num_scheduled_operations`
+    # ... dispatch ... `now = <same>`; `if now == before`.  Every accepted dispatch adds exactly one
+    # operation (pinned API), so two samples are equal iff no dispatch lies between them.
+    esnap: dict[tuple, tuple] = {}
+    ndisp = 0
+
+    def count_expr(x):
+        if isinstance(x, ast.Call) and not x.args and not x.keywords:
+            x = x.func
+        if isinstance(x, ast.Attribute) and x.attr == "num_scheduled_operations":
+            return ast.unparse(x)
+        return None
+
     for e in evs:
         fid = e.frame.id
+        if e.kind == "call" and any(getattr(t, "name", "") == "dispatch" and getattr(getattr(t, "cls", None), "name", "") == "Dispatcher" for t in (e.data.get("targets") or [])):
+            ndisp += 1
         if e.kind == "write" and e.data.get("local"):
             st = e.node
+            if isinstance(st, (ast.Assign, ast.AnnAssign)):
+                tg_ = st.targets[0] if isinstance(st, ast.Assign) and len(st.targets) == 1 else getattr(st, "target", None)
+                if isinstance(tg_, ast.Name):
+                    ce = count_expr(st.value) if st.value is not None else None
+                    if ce is not None:
+                        esnap[(fid, tg_.id)] = (ce, ndisp)
+                    else:
+                        esnap.pop((fid, tg_.id), None)
             if isinstance(st, ast.Assign) and len(st.targets) == 1 and isinstance(st.targets[0], ast.Name) and isinstance(st.value, ast.Name):
                 snap[(fid, st.targets[0].id)] = [st.value.id, False]
             elif isinstance(st, ast.AugAssign) and isinstance(st.target, ast.Name) and isinstance(st.op, ast.Add) \
@@ -831,6 +870,28 @@ def _feasible(evs) -> bool:
                         return pos
                     if isinstance(op, ast.Eq) and k == 0 or isinstance(op, ast.Lt) and k == 1 or isinstance(op, ast.LtE) and k == 0:
                         return not pos
+                if isinstance(x, ast.Compare) and len(x.ops) == 1:
+                    def sample(y):
+                        if isinstance(y, ast.Name):
+                            return esnap.get((fid, y.id))
+                        ce = count_expr(y)
+                        return (ce, ndisp) if ce is not None else None
+
+                    sa, sb = sample(x.left), sample(x.comparators[0])
+                    if sa is not None and sb is not None and sa[0] == sb[0]:
+                        op = x.ops[0]
+                        if isinstance(op, ast.Eq):
+                            return sa[1] == sb[1]
+                        if isinstance(op, ast.NotEq):
+                            return sa[1] != sb[1]
+                        if isinstance(op, ast.Gt):
+                            return sa[1] > sb[1]
+                        if isinstance(op, ast.Lt):
+                            return sa[1] < sb[1]
+                        if isinstance(op, ast.GtE):
+                            return sa[1] >= sb[1]
+                        if isinstance(op, ast.LtE):
+                            return sa[1] <= sb[1]
                 if isinstance(x, ast.Compare) and len(x.ops) == 1 and isinstance(x.left, ast.Name) and isinstance(x.comparators[0], ast.Name):
                     a, b = x.left.id, x.comparators[0].id
                     for cur, before in ((a, b), (b, a)):
